@@ -18,7 +18,7 @@ ASSUMPTIONS = [
     'HMAC-SHA512 and hash160 are uninterpreted functional symbols; the obligation compares the HMAC key and data BYTES with BIP32',
     'HDKey(...) construction of the child (C code: point multiplication, formats) is replaced by a recording subclass that stores the fields it is given',
 ]
-BOUNDS = {'quick': 'all parent secrets in [1, n-1], all chain codes, all indices 0..2^32+1, hardened flag, all five hardened markers, paths of 1 level from a private and from a public parent with m/, M/ and no prefix',
+BOUNDS = {'quick': 'every derivation also after an earlier address_uncompressed() call on the parent object; a second parent with the same key and another chain code deriving the same child number (nothing remembered); all parent secrets in [1, n-1], all chain codes, all indices 0..2^32+1, hardened flag, all five hardened markers, paths of 1 level from a private and from a public parent with m/, M/ and no prefix',
           'thorough': 'as quick plus paths of 2 levels (private parent with m/ and M/ prefix, public parent), markers {none, \', H} x {none, \'}'}
 OUTSIDE = 'that fastecdsa computes the real curve and HMAC; seeds -> master key beyond the HMAC call shape; depth > 3 (each level is the same code: one inductive step is checked from an arbitrary parent)'
 W = 272
@@ -138,8 +138,11 @@ def make_fake(K):
                 self.private_byte, self.secret = None, None
                 self.log = key.log
                 self.prefix_chosen = key.prefix
-            self.public_byte = ser_point(self.log)
-            self._hash160 = h160_of(self.public_byte)
+            self.public_byte = self.public_compressed_byte = ser_point(self.log)
+            self._public_uncompressed_byte = b'\x04' + self.public_byte[1:] + _S['ser'](b'y-of' + self.public_byte)[:32]
+            self._public_uncompressed_hex = 'set'
+            self._hash160 = None          # (the real hash160 property computes it - from the serialization the flag selects)
+            self._address_obj = None
             self._x, self._y = Coord(self.log, 'x'), Coord(self.log, 'y')
             self.x_hex = self.y_hex = None
     return FakeHD
@@ -184,12 +187,18 @@ def setup(ex):
     Fake = make_fake(K)
     _S['Fake'] = Fake
     shims.install(K, HDKey=Fake, hmac=_FakeHmac, ec_point=lambda m: GP(m), fastecdsa_point=_FakePointMod,
-                  change_base=_change_base_stub(K.change_base), _logger=_NullLog())
+                  change_base=_change_base_stub(K.change_base), _logger=_NullLog(), hash160=h160_of, Address=_NoAddress)
 
 
 class _NullLog:
     def __getattr__(self, n):
         return lambda *a, **k: None
+
+
+class _NoAddress:
+    """the address text is not part of C03 (C04 / C05): a recording stand-in"""
+    def __init__(self, data='', **k):
+        self.data, self.address, self.prefix, self.encoding, self.script_type = data, 'address-not-modelled', k.get('prefix'), k.get('encoding'), k.get('script_type')
 
 
 def _change_base_stub(real):
@@ -251,6 +260,20 @@ def _IL_IR(key, data):
     return shims.IntShim.from_bytes(out[:32], 'big'), out[32:]
 
 
+def _fingerprint(ex, par):
+    """BIP32 key identifier: HASH160 of the compressed public key serialization - independent of earlier calls"""
+    if ex.concrete:
+        import hashlib
+        return hashlib.new('ripemd160', hashlib.sha256(bytes(par.public_compressed_byte)).digest()).digest()[:4]
+    return h160_of(par.public_compressed_byte)[:4]
+
+
+def _prior_call(ex, K, par):
+    """an earlier, unrelated call on the parent object (call histories): asking for its uncompressed address"""
+    if ex.choose('earlier_call_on_parent', ['none', 'address_uncompressed()']) != 'none':
+        K.Key.address(par, compressed=False, encoding='base58', script_type='p2pkh')
+
+
 def fld(child, name):
     return child.rec[name] if hasattr(child, 'rec') else getattr(child, name)
 
@@ -265,21 +288,37 @@ def same_point(child, log):
     return _eq(child.public_byte, ser_point(log))
 
 
-def h_ckd_private(ex):
+def h_ckd_private(ex, twice=False):
+    """CKDpriv.  With twice=True a second parent with the SAME private key but another chain code (a bare key imported
+    as HDKey next to the real extended key) derives the same child number afterwards: its child must follow from its
+    own chain code - nothing may be remembered from the first derivation"""
     K = _mods()
     par, k, chain, depth = mk_parent(ex, K, True)
     index = ex.int('index', 0, 2 ** 32 + 1)
     hardened = ex.bool('hardened')
     hard = bool(hardened)
-    _FakeHmac.calls = []
+    _prior_call(ex, K, par)
+    _ckd_private_once(ex, K, par, k, chain, depth, index, hard, '')
+    if twice:
+        core.HASH_BY_VALUE = True
+        chain2 = ex.bytes('second_parent_chain', 32)
+        if ex.concrete:
+            par2 = K.HDKey(key=k.to_bytes(32, 'big'), chain=chain2, depth=depth, is_private=True)
+        else:
+            par2 = _S['Fake'](key=k.to_bytes(32, 'big'), chain=chain2, depth=depth, is_private=True)
+        _ckd_private_once(ex, K, par2, k, chain2, depth, index, hard, '-second-parent')
+
+
+def _ckd_private_once(ex, K, par, k, chain, depth, index, hard, tag):
+    _FakeHmac.calls = [] if not ex.concrete else None
     try:
         child = par.child_private(index=index, hardened=hard)
     except K.BKeyError:
         refused = True
     except OverflowError:
         # index does not fit 4 bytes
-        ex.check(s_or(index >= 2 ** 32, s_and(hard, False)), 'ckdpriv-overflow-only-above-2^32')
-        return
+        ex.check(s_or(index >= 2 ** 32, s_and(hard, False)), 'ckdpriv-overflow-only-above-2^32' + tag)
+        return True
     else:
         refused = False
     # BIP32 CKDpriv
@@ -291,20 +330,20 @@ def h_ckd_private(ex):
         data = par.public_byte + i_eff.to_bytes(4, 'big')
     IL, IR = _IL_IR(chain, data)
     if IL >= N:                      # BIP32: invalid, proceed with the next index
-        ex.check(refused, 'ckdpriv-IL-ge-n-refused')
-        return
+        ex.check(refused, 'ckdpriv-IL-ge-n-refused' + tag)
+        return True
     newk = (IL + k) % N
     if refused:
-        ex.check(newk == 0, 'ckdpriv-refuses-only-invalid-IL')
-        return
-    ex.check(newk != 0, 'ckdpriv-zero-child-refused')
-    ex.check(hmac_called_with(ex, chain, data), 'ckdpriv-hmac-key-and-data-per-bip32')
-    ex.check(child.secret == newk, 'ckdpriv-child-scalar')
-    ex.check(_eq(fld(child, 'chain'), IR), 'ckdpriv-child-chain')
-    ex.check(fld(child, 'depth') == depth + 1, 'ckdpriv-depth')
-    ex.check(fld(child, 'child_index') == i_eff, 'ckdpriv-child-number')
-    ex.check(_eq(fld(child, 'parent_fingerprint'), par.hash160[:4]), 'ckdpriv-parent-fingerprint')
-    ex.check(fld(child, 'is_private') is True, 'ckdpriv-is-private')
+        ex.check(newk == 0, 'ckdpriv-refuses-only-invalid-IL' + tag)
+        return True
+    ex.check(newk != 0, 'ckdpriv-zero-child-refused' + tag)
+    ex.check(hmac_called_with(ex, chain, data), 'ckdpriv-hmac-key-and-data-per-bip32' + tag)
+    ex.check(child.secret == newk, 'ckdpriv-child-scalar' + tag)
+    ex.check(_eq(fld(child, 'chain'), IR), 'ckdpriv-child-chain' + tag)
+    ex.check(fld(child, 'depth') == depth + 1, 'ckdpriv-depth' + tag)
+    ex.check(fld(child, 'child_index') == i_eff, 'ckdpriv-child-number' + tag)
+    ex.check(_eq(fld(child, 'parent_fingerprint'), _fingerprint(ex, par)), 'ckdpriv-parent-fingerprint' + tag)
+    ex.check(fld(child, 'is_private') is True, 'ckdpriv-is-private' + tag)
 
 
 def h_ckd_public(ex):
@@ -312,6 +351,7 @@ def h_ckd_public(ex):
     priv_parent = ex.choose('parent', ['public', 'private'])
     par, k, chain, depth = mk_parent(ex, K, priv_parent == 'private')
     index = ex.int('index', 0, 2 ** 32 + 1)
+    _prior_call(ex, K, par)
     _FakeHmac.calls = []
     try:
         child = par.child_public(index=index)
@@ -339,7 +379,7 @@ def h_ckd_public(ex):
     ex.check(_eq(fld(child, 'chain'), IR), 'ckdpub-child-chain')
     ex.check(fld(child, 'depth') == depth + 1, 'ckdpub-depth')
     ex.check(fld(child, 'child_index') == index, 'ckdpub-child-number')
-    ex.check(_eq(fld(child, 'parent_fingerprint'), par.hash160[:4]), 'ckdpub-parent-fingerprint')
+    ex.check(_eq(fld(child, 'parent_fingerprint'), _fingerprint(ex, par)), 'ckdpub-parent-fingerprint')
     ex.check(fld(child, 'is_private') is False, 'ckdpub-is-public')
 
 
@@ -472,6 +512,7 @@ def h_from_seed(ex):
 def jobs(tier):
     q = tier == 'quick'
     J = [Job('ckd_private', h_ckd_private, W=W, setup=setup, budget_s=1500),
+         Job('ckd_private_two_parents', h_ckd_private, W=W, setup=setup, budget_s=1500, params=dict(twice=True)),
          Job('ckd_public', h_ckd_public, W=W, setup=setup, budget_s=1500),
          Job('commute', h_commute, W=W, setup=setup, budget_s=1500),
          Job('from_seed', h_from_seed, W=W, setup=setup, budget_s=1500)]
